@@ -224,6 +224,11 @@ def T9(m, R):
                 if pos[:len(names)] != names:
                     problems.append('passes (%s), expected the parsed values (%s) in order' % (', '.join(pos), ', '.join(names)))
                 comp_arg = c.args[len(names)] if len(c.args) > len(names) else next((k.value for k in c.keywords if k.arg == 'component'), None)
+                if isinstance(comp_arg, ast.Name):
+                    # a local bound once in the block stands for its value
+                    defs_ = [n_ for n_ in ast.walk(blk) if isinstance(n_, ast.Assign) and len(n_.targets) == 1 and is_name(n_.targets[0], comp_arg.id)]
+                    if len(defs_) == 1:
+                        comp_arg = defs_[0].value
                 wc = '%s.get(%s.group(1), ColorComponentType.FOREGROUND)' % (compname, var)
                 if comp_arg is None or norm(comp_arg).replace('ColourComponentType', 'ColorComponentType') != wc:
                     problems.append('component is %s, expected %s' % (norm(comp_arg), wc))
